@@ -8,6 +8,7 @@ import MxlVerif.Lemmas.Sort
 import MxlVerif.Lemmas.SortMissing
 import MxlVerif.Lemmas.Unique
 import MxlVerif.Lemmas.PermInvariant
+import MxlVerif.Lemmas.PermArgs
 namespace Mxl.C02
 open Mxl
 
@@ -164,6 +165,22 @@ theorem C02_declaration_order_irrelevant {c c' : Content} (hn : WFnames c)
           (baseEnv (plainOf c'.pars) (plainOf c'.vars) c'.data 0) = .ok dep' ∧
         ∀ n, dep'.lookup n = dep.lookup n :=
   createCache_perm_invariant hn hsame hc
+
+/-- **… and so is every later answer.**  For the two caches of `C02_declaration_order_irrelevant`,
+    the same state (given as a map over the variables, listed in each content's own declaration
+    order) and the same time yield argument tables — the dict `_get_args` builds, from which
+    `get_args`, `get_fluxes`, the right-hand side and the time-course forms are read — that agree
+    on every name. -/
+theorem C02_argument_table_order_independent {c c' : Content} (hn : WFnames c)
+    (hsame : SameContent c' c) {cache cache' : Cache}
+    (hc : createCache c = .ok cache) (hc' : createCache c' = .ok cache')
+    (vars vars' : List (Name × Rat)) (hv : vars.map (·.1) = omKeys c.vars)
+    (hv' : vars'.map (·.1) = omKeys c'.vars) (hvv : ∀ k, vars'.lookup k = vars.lookup k) (t : Rat)
+    {env env' : Env} (he : getArgsEnv c cache vars t = .ok env)
+    (he' : getArgsEnv c' cache' vars' t = .ok env') : ∀ n, env'.lookup n = env.lookup n := by
+  obtain ⟨cache'', hc'', _, hpars, hdyn, _⟩ := createCache_perm_invariant hn hsame hc
+  rw [hc'] at hc''; cases hc''
+  exact getArgsEnv_perm_invariant hn hsame hc hc' hpars hdyn vars vars' hv hv' hvv t he he'
 
 /-- **The verdict is a function of the graph alone**: acyclic and complete → an order; some
     required name provided by nothing → the missing-dependency error; complete but not acyclic →
